@@ -542,7 +542,11 @@ class Resolver:
                     # `for x in SRC { v.push(E) }` is SRC.map(|x| E).collect()
                     chain.append(('collect', None))
                     chain.append(('map', ('loopbody', lb['push'])))
-                    elem = self.value(f, lb['elem'], depth + 1)
+                    if lb.get('arms'):
+                        # one push per arm of a match on the element: the element template is the alternative of the arms
+                        elem = [('alt', [(self._label(f, {'block': b_, 'span': None}), self.value(f, e_, depth + 1), self._conds(f, {'block': b_})) for b_, e_ in lb['arms']])]
+                    else:
+                        elem = self.value(f, lb['elem'], depth + 1)
                     cur = lb['source']
                     if lb['filtered']:
                         chain.append(('filter', ('loopcond', lb['push'], f.id)))
